@@ -794,6 +794,59 @@ fn eval_ruint(w: &[&str]) -> Out {
     out
 }
 
+// ---- the small fallible integer constructors; `want` is an independent computation in u128 arithmetic
+fn eval_ctor(w: &[&str]) -> Out {
+    use elements::locktime::{Height, Time};
+    if w.len() != 5 { return Out::ok("harnesserr args".into()); }
+    if w[2] != own_mode() { return Out::ok("harnesserr profile: replay this case with the other harness binary".into()); }
+    let Ok(n) = w[4].parse::<u64>() else { return Out::ok("harnesserr int".into()) };
+    let f = w[3];
+    let fits = |bits: u32| n < (1u64 << bits);
+    let need = match f { "seqheight" | "seq512" => 16, "schnorr" | "leafver" | "ordinary" => 8, _ => 32 };
+    if !fits(need) { return Out::ok("harnesserr range".into()); }
+    let n32 = n as u32; let x = n as u128;
+    const MASK: u128 = 0x0040_0000; const TH: u128 = 500_000_000;
+    let std_ecdsa = [1u128, 2, 3, 0x81, 0x82, 0x83]; let std_schnorr = [0u128, 1, 2, 3, 0x81, 0x82, 0x83];
+    let okv = |v: u128| format!("ok {}", v);
+    let want: String = match f {
+        "seqfloor" => if x / 512 <= 0xffff { okv(x / 512 | MASK) } else { "err".into() },
+        "seqceil" => if (x + 511) / 512 <= 0xffff { okv((x + 511) / 512 | MASK) } else { "err".into() },
+        "seqheight" => okv(x), "seq512" => okv(x | MASK),
+        "ltconsensus" => format!("ok {}{}", if x < TH { "b" } else { "s" }, x),
+        "ltheight" | "height" => if x < TH { okv(x) } else { "err".into() },
+        "lttime" | "time" => if x >= TH { okv(x) } else { "err".into() },
+        "ecdsastd" => if std_ecdsa.contains(&x) { okv(x) } else { "err".into() },
+        "psbtecdsa" => if std_ecdsa.contains(&x) { okv(x) } else { "none".into() },
+        "schnorr" | "psbtschnorr" => if std_schnorr.contains(&x) { okv(x) } else { "none".into() },
+        "leafver" => if x % 2 == 0 && x != 0x50 { okv(x) } else { "err".into() },
+        "ordinary" => "?".into(),
+        _ => return Out::ok("harnesserr fn".into()),
+    };
+    let (r, obs) = guard(|| -> String { match f {
+        "seqfloor" => elements::Sequence::from_seconds_floor(n32).map(|s| okv(s.0 as u128)).unwrap_or("err".into()),
+        "seqceil" => elements::Sequence::from_seconds_ceil(n32).map(|s| okv(s.0 as u128)).unwrap_or("err".into()),
+        "seqheight" => okv(elements::Sequence::from_height(n as u16).0 as u128),
+        "seq512" => okv(elements::Sequence::from_512_second_intervals(n as u16).0 as u128),
+        "ltconsensus" => { let l = LockTime::from_consensus(n32); format!("ok {}{}", if l.is_block_height() { "b" } else { "s" }, l.to_consensus_u32()) }
+        "ltheight" => LockTime::from_height(n32).map(|l| okv(l.to_consensus_u32() as u128)).unwrap_or("err".into()),
+        "lttime" => LockTime::from_time(n32).map(|l| okv(l.to_consensus_u32() as u128)).unwrap_or("err".into()),
+        "height" => Height::from_consensus(n32).map(|l| okv(l.to_consensus_u32() as u128)).unwrap_or("err".into()),
+        "time" => Time::from_consensus(n32).map(|l| okv(l.to_consensus_u32() as u128)).unwrap_or("err".into()),
+        "ecdsastd" => elements::EcdsaSighashType::from_standard(n32).map(|t| okv(t.as_u32() as u128)).unwrap_or("err".into()),
+        "psbtecdsa" => pset::PsbtSighashType::from_u32(n32).ecdsa_hash_ty().map(|t| okv(t.as_u32() as u128)).unwrap_or("none".into()),
+        "schnorr" => elements::SchnorrSighashType::from_u8(n as u8).map(|t| okv(t as u8 as u128)).unwrap_or("none".into()),
+        "psbtschnorr" => pset::PsbtSighashType::from_u32(n32).schnorr_hash_ty().map(|t| okv(t as u8 as u128)).unwrap_or("none".into()),
+        "leafver" => elements::taproot::LeafVersion::from_u8(n as u8).map(|v| okv(v.as_u8() as u128)).unwrap_or("err".into()),
+        _ => elements::opcodes::Ordinary::try_from_all(elements::opcodes::All::from(n as u8)).map(|o| okv(o.into_u8() as u128)).unwrap_or("none".into()),
+    } });
+    let res = r.clone().unwrap_or_else(|| "panic".into());
+    let mut out = finish(res.clone(), &obs, None, Some(small_bound(16)));
+    if out.pred_fail.is_none() && want != "?" && res != want {
+        out.pred_fail = Some(format!("ctor-value|{}({}) gives `{}`, the exact computation gives `{}`", f, n, res, want));
+    }
+    out
+}
+
 // ---- fee sums
 fn eval_fees(w: &[&str]) -> Out {
     if w.len() != 4 { return Out::ok("harnesserr args".into()); }
@@ -864,6 +917,12 @@ fn explore_pset(p: &Pset) {
 /// before the first input is read), one pending key and one pending value of at most MAX_VEC_SIZE each, one nested consensus object
 fn pset_bound(n: usize) -> u64 {
     10_000 * (std::mem::size_of::<pset::Input>() + std::mem::size_of::<pset::Output>()) as u64 + 4 * elements::encode::MAX_VEC_SIZE as u64 + 4096 * n as u64 + 65536
+}
+/// proprietary subtype under which ELIP102 stores the asset blinding factor (looked up from a value set through the API)
+fn pset_abf_subtype() -> u8 {
+    let mut i = pset::Input::default();
+    i.set_abf(confidential::AssetBlindingFactor::zero());
+    i.proprietary.keys().next().map(|k| k.subtype).unwrap_or(0)
 }
 fn eval_explore_case(case: &str) -> Out {
     let w: Vec<&str> = case.split(' ').collect();
@@ -1038,6 +1097,42 @@ fn eval_explore(kind: &str, w: &[&str]) -> Out {
                 out.pred_fail = Some(format!("{}|a {}-byte string was deserialized as a 33-byte commitment (secp256k1-zkp's Deserialize calls from_slice without a length test; bytes behind the string were read)", F27, l)); } } }
             out
         }
+        "x-ctor" => {
+            // every remaining `-> Result/Option` constructor that takes a slice or a string, on one byte string
+            use elements::hashes::Hash as _;
+            if w.len() != 3 { return Out::ok("harnesserr args".into()); }
+            let Some(b) = unhex_dash(w[2]) else { return Out::ok("harnesserr hex".into()) };
+            let txt = String::from_utf8_lossy(&b).to_string();
+            let (_, obs) = guard(|| {
+                // (the hash newtypes of hash_types.rs / taproot.rs / issuance.rs have no fallible slice constructor in this version of `hashes`)
+                let _ = (confidential::AssetBlindingFactor::from_slice(&b).is_ok(), confidential::ValueBlindingFactor::from_slice(&b).is_ok(),
+                         confidential::AssetBlindingFactor::from_hex(&txt).is_ok(), confidential::ValueBlindingFactor::from_hex(&txt).is_ok());
+                let _ = (confidential::Nonce::from_commitment(&b).is_ok(), confidential::Value::from_commitment(&b).is_ok(), confidential::Asset::from_commitment(&b).is_ok());
+                let _ = (elements::sighash::Annex::new(&b).is_ok(), elements::SchnorrSig::from_slice(&b).is_ok(), elements::taproot::ControlBlock::from_slice(&b).is_ok(), elements::taproot::TaprootMerkleBranch::from_slice(&b).is_ok());
+                let _ = elements::taproot::TaprootMerkleBranch::from_inner(b.chunks(32).filter(|c| c.len() == 32).map(|c| elements::taproot::TapNodeHash::from_byte_array(<[u8; 32]>::try_from(c).unwrap())).collect()).is_ok();
+                let _ = (pset::elip100::AssetMetadata::deserialize(&b).is_ok(), pset::elip100::TokenMetadata::deserialize(&b).is_ok());
+                let _ = pset::raw::ProprietaryKey::<u8>::from_key(&pset::raw::Key { type_value: b.first().copied().unwrap_or(0xfc), key: b.clone() }).is_ok();
+                let _ = pset::raw::ProprietaryKey::<u8>::from_key(&pset::raw::Key { type_value: 0xfc, key: b.clone() }).map(|k| k.to_key());
+                let _ = (elements::encode::deserialize_partial::<pset::raw::Pair>(&b).is_ok(), elements::encode::deserialize_partial::<pset::raw::Key>(&b).is_ok(), elements::encode::deserialize_partial::<elements::encode::VarInt>(&b).is_ok(),
+                         elements::encode::deserialize_partial::<LockTime>(&b).is_ok(), elements::encode::deserialize_partial::<elements::Sequence>(&b).is_ok(), elements::encode::deserialize_partial::<OutPoint>(&b).is_ok(),
+                         elements::encode::deserialize::<elements::locktime::Height>(&b).is_ok(), elements::encode::deserialize::<elements::locktime::Time>(&b).is_ok(),
+                         elements::encode::deserialize::<elements::AssetIssuance>(&b).is_ok(), elements::encode::deserialize::<elements::TxInWitness>(&b).is_ok(), elements::encode::deserialize::<elements::TxOutWitness>(&b).is_ok());
+                let _ = (Script::from_hex_no_prefix(&txt).is_ok(), elements::locktime::Height::from_str(&txt).is_ok(), elements::locktime::Time::from_str(&txt).is_ok(),
+                         elements::issuance::AssetEntropy::from_str(&txt).is_ok(), elements::taproot::TapLeafHash::from_str(&txt).is_ok());
+                let s = Script::from(b.clone());
+                let _ = (elements::script::read_scriptint(&b).is_ok(), elements::script::read_scriptbool(&b));
+                for i in s.instructions() { match i { Ok(ins) => { let _ = (ins.op(), ins.push_bytes()); } Err(_) => break } }
+                let mut p = Pset::new_v2();
+                p.add_input(pset::Input::from_prevout(OutPoint::new(txid(1), 0)));
+                p.add_output(pset::Output::new_explicit(Script::new(), 5, asset(3), None));
+                p.global.proprietary.insert(pset::raw::ProprietaryKey::from_pset_pair(0x00, b.clone()), b.clone());
+                p.inputs_mut()[0].proprietary.insert(pset::raw::ProprietaryKey::from_pset_pair(pset_abf_subtype(), vec![]), b.clone());
+                p.outputs_mut()[0].proprietary.insert(pset::raw::ProprietaryKey::from_pset_pair(pset_abf_subtype(), vec![]), b.clone());
+                let _ = (p.inputs()[0].get_abf().map(|r| r.is_ok()), p.outputs()[0].get_abf().map(|r| r.is_ok()), p.get_asset_metadata(asset(3)).map(|r| r.is_ok()), p.get_token_metadata(asset(3)).map(|r| r.is_ok()));
+                let _ = (p.remove_input(b.len()), p.remove_output(b.len()), p.remove_input(0), p.remove_output(0));
+            });
+            finish("total".into(), &obs, None, Some(elements::encode::MAX_VEC_SIZE as u64 * 2 + 4096 * b.len() as u64 + (1 << 20)))
+        }
         "x-text" => {
             if w.len() != 3 { return Out::ok("harnesserr args".into()); }
             let Some(s) = unhex_dash(w[2]).and_then(|b| String::from_utf8(b).ok()) else { return Out::ok("harnesserr utf8".into()) };
@@ -1098,6 +1193,7 @@ pub fn eval(case: &str) -> Out {
         "tapidx" => eval_tapidx(&w),
         "fees" => eval_fees(&w),
         "ruint" => eval_ruint(&w),
+        "ctor" => eval_ctor(&w),
         "commit" => eval_commit(&w),
         k if k.starts_with("x-") => {
             // PSET decoding can crash the process (F18): evaluate in a child
